@@ -192,7 +192,14 @@ impl LightClientProtocol {
         <T as Entity>::Builder: ProverMessageBuilder,
         <<T as Entity>::Builder as Builder>::Entity: Into<packed::LightClientMessageUnion>,
     {
-        let (parent_chain_root, proof) = {
+        let (parent_chain_root, proof) = if last_block.is_genesis() {
+            // there is no block below the genesis block: no parent chain root, nothing to prove
+            if !items_positions.is_empty() {
+                let errmsg = "failed to generate a proof since no block is below the genesis block";
+                return StatusCode::InternalError.with_context(errmsg);
+            }
+            (Default::default(), Default::default())
+        } else {
             let snapshot = self.shared.snapshot();
             let mmr = snapshot.chain_root_mmr(last_block.number() - 1);
             let parent_chain_root = match mmr.get_root() {
